@@ -136,6 +136,9 @@ func (t *Telnet) Open(a *Args) error {
 
 	err = t.handleControlChars(a)
 	if err != nil {
+		// nothing above us closes a transport that failed to open, don't leave the socket behind
+		_ = t.c.Close()
+
 		return err
 	}
 
